@@ -159,6 +159,38 @@ def run(chk):
         chk.fail("unknown kick method raises ValueError", "nonsense", "no error")
     except ValueError:
         pass
+    # every argument given to the dispatcher reaches the retention function of the chosen method: each populated bin is multiplied by
+    # the retention of ITS mean mass computed with exactly these arguments (the retention functions themselves are tied above)
+    for _ in range(12 if chk.tier == "quick" else 120):
+        nb_ = rng.choice([3, 5, 8])
+        Md = np.array([rng.choice([0.0, rng.uniform(5, 60)]) for _ in range(nb_)])
+        Nd = np.where(Md > 0, Md / np.array([rng.uniform(4, 40) for _ in range(nb_)]), 0.0) * rng.choice([1.0, 30.0])
+        Md = Md * rng.choice([1.0, 30.0]) if False else Nd * np.array([rng.uniform(4, 40) for _ in range(nb_)])
+        meth_ = rng.choice(["maxwellian", "f12", "sigmoid"])
+        if meth_ == "sigmoid":
+            kwd = dict(slope=rng.choice([0.3, 1.0, 2.5]), scale=rng.choice([8.0, 12.0, 20.0]))
+            fn_ = lambda m_: float(kicks._sigmoid_retention_frac(m_, **kwd))    # noqa
+        else:
+            kwd = dict(vesc=rng.choice([20.0, 60.0, 90.0, 300.0]), FeH=rng.choice([-2.0, -1.0, 0.0]))
+            if rng.random() < 0.7:
+                kwd["vdisp"] = rng.choice([50.0, 100.0, 150.0, 500.0])
+            if rng.random() < 0.4:
+                kwd["SNe_method"] = rng.choice(["rapid", "delayed"])
+            fn_ = lambda m_: float(kicks._maxwellian_retention_frac(m_, **kwd))   # noqa
+        M1, N1 = Md.copy(), Nd.copy()
+        case_d = dict(M=[float(x) for x in Md], N=[float(x) for x in Nd], method=meth_, **kwd)
+        chk.note_distinct(case_d)
+        _, _, ej_ = kicks.natal_kicks(M1, N1, method=meth_, **kwd)
+        wantM, wantN, want_ej = Md.copy(), Nd.copy(), 0.0
+        for j_ in range(nb_):
+            if Nd[j_] < 0.1:
+                continue
+            r_ = fn_(Md[j_] / Nd[j_])
+            want_ej += Md[j_] * (1 - r_)
+            wantM[j_], wantN[j_] = Md[j_] * r_, Nd[j_] * r_
+        if not (np.allclose(M1, wantM, rtol=1e-12, atol=0) and np.allclose(N1, wantN, rtol=1e-12, atol=0) and abs(ej_ - want_ej) <= 1e-9 * max(want_ej, 1e-300) + 1e-300):
+            chk.fail("each populated bin is multiplied by the retention fraction of its mean mass (with the arguments given to natal_kicks)", case_d,
+                     dict(M_after=[float(x) for x in M1], expected=[float(x) for x in wantM], ejected=float(ej_), expected_ejected=float(want_ej)))
     o = kicks.natal_kicks(M, N, method="SIGMOID", slope=1.0, scale=20.0)
     if not (o[0] is M and o[1] is N):
         chk.fail("kicks return the very arrays they were given", "natal_kicks", "new arrays")
